@@ -393,6 +393,8 @@ pub fn prop(c: &Case) -> Verdict {
     let (Some(id), Some(kind), Some(alen)) = (it.next(), it.next(), it.next()) else { return Verdict::ok(false, "rp-bad-case") };
     let (Ok(id), Ok(alen)) = (id.parse::<usize>(), alen.parse::<usize>()) else { return Verdict::ok(false, "rp-bad-case") };
     let spec = f_str(c, 2);
+    // a single revision that starts with `^` (empty anchor, then `^…`) is the exclusion of the rest
+    let kind = if kind == "s" && spec.first() == Some(&b'^') { "x" } else { kind };
     if id >= NREPOS || spec.contains(&b'\n') || kind.is_empty() {
         return Verdict::ok(false, "rp-bad-case");
     }
@@ -416,8 +418,12 @@ pub fn prop(c: &Case) -> Verdict {
         // git's last resort for a name ending in `}` that contains `@{`: everything between the LAST-found `@{` … and the
         // final `}` is handed to approxidate, which accepts anything (`dup@{0}^2^{commit}` = reflog of dup at the "date"
         // `0}^2^{commit`). When the ordinary reading fails git therefore still answers; that answer says nothing.
+        // The fallback also applies to every prefix git cuts off while parsing (`X@{2}^{tag}~0`), so: an `@{…}` that is
+        // followed by another `}` anywhere later.
         let quirk = |x: &[u8]| {
-            x.ends_with(b"}") && x.windows(2).position(|w| w == b"@{").map_or(false, |p| x[p..].iter().position(|c| *c == b'}').map_or(false, |q| p + q + 1 < x.len()))
+            x.windows(2).position(|w| w == b"@{").map_or(false, |p| {
+                x[p..].iter().position(|c| *c == b'}').map_or(false, |q| x[p + q + 1..].contains(&b'}'))
+            })
         };
         if got == "error" && want != "error" && (quirk(&a) || quirk(&b)) {
             return Verdict::ok(false, "rp-git-approxidate-fallback");
@@ -470,8 +476,26 @@ fn classify(kind: &str, a: &[u8], b: &[u8], got: &str, want: &str, git: &mut Cat
     }
     for x in &sides {
         let low = x.to_ascii_lowercase();
-        if gix_ok && !git_ok && low.starts_with(b"refs/") && (low.contains_str_b(b"@{u}") || low.contains_str_b(b"@{upstream}") || low.contains_str_b(b"@{push}")) {
+        if gix_ok && !git_ok && (low.starts_with(b"refs/") || low.starts_with(b"heads/")) && (low.contains_str_b(b"@{u}") || low.contains_str_b(b"@{upstream}") || low.contains_str_b(b"@{push}")) {
             return "sibling-branch-of-full-ref-name-accepted".into();
+        }
+    }
+    // `X@{n}` where X is both a tag and a branch: git reads the reflog of the one that has a log (the branch),
+    // gix picks refs/tags/X first and finds no log
+    for x in &sides {
+        let anc = anchor_of(x);
+        if !gix_ok && git_ok && x[anc.len()..].starts_with(b"@{") && !anc.is_empty() && !anc.contains(&b'/') {
+            let t = [&b"refs/tags/"[..], &anc].concat();
+            let h = [&b"refs/heads/"[..], &anc].concat();
+            if git.resolve(&t).is_some() && git.resolve(&h).is_some() {
+                return "reflog-of-name-that-is-tag-and-branch".into();
+            }
+        }
+    }
+    // `^{/regex}` without anything in front searches all references like `:/regex` (documented in the delegate trait)
+    for x in &sides {
+        if gix_ok && !git_ok && x.starts_with(b"^{/") {
+            return "regex-peel-without-anchor-accepted".into();
         }
     }
     // `~0`: the tokenizer makes no delegate call at all (pinned by gix-revision test tilde_symbol.rs `@~0`);
